@@ -86,7 +86,7 @@ P = {
                          "graph/ok/h2/diamond+refused", "graph/refuse/no-root", "graph/refuse/two-roots", "graph/refuse/loop", "graph/refuse/bad-diff-name", "graph/collision",
                          "walk/cM/None/few", "walk/cM/Both/many", "walk/cM/Up/few", "walk/cM/Down/few", "walk/fM/Both/few", "walk/cJ/None/few", "walk/fJ/Both/few",
                          "edge/cM/edited", "edge/cM/same", "edge/cM/err", "edge/fJ/edited", "edge/fJ/err", "root/cM/edited", "root/cM/err", "root/fJ/same", "ids"],
-    "level_text": "The version graph is specified operationally (directory scan in listing order with the code's add_node / or_insert semantics incl. split names, single-root check, walk with loop detection, get, apply_diffs = fold of Apply (C04's specification) along any shortest root -> version path, contraction of the root on load, extension on output (C11's specification)) and declaratively (what the set of files denotes independent of the listing: versions, lookup names with their split, edges, errors for no root / two roots / malformed diff name / a cycle reachable from the root; unreachable versions are errors at apply_diffs). TLC checks scan = declarative view for every listing explored, answers and depths independent of the listing, over all edge sets of <= 2 edges (thorough: <= 3) plus chains, trees, diamonds (with shortcut, with paths of different length), cycles through / beside / away from the root, disconnected parts, x every root choice (none, one, two) x three families of edit histories (class additions, comment additions that conflict on a path, inner classes contracted in the diffs and extended in the answer) x stray files. Every directory is created on disk (files written from the specification's own line records) and run through the real VersionGraph::resolve / get / apply_diffs / depth; random larger version trees with real diffs, second parents, unreachable versions and stale diffs are validated by TLC against the listing read_dir actually returned.",
+    "level_text": "The version graph is specified operationally (directory scan in listing order with the code's add_node / or_insert semantics incl. split names, single-root check, walk with loop detection, get, apply_diffs = fold of Apply (C04's specification) along any shortest root -> version path, contraction of the root on load, extension on output (C11's specification)) and declaratively (what the set of files denotes independent of the listing: versions, lookup names with their split, edges, errors for no root / two roots / malformed diff name / a cycle reachable from the root; unreachable versions are errors at apply_diffs). TLC checks scan = declarative view for every listing explored, answers and depths independent of the listing, over all edge sets of <= 2 edges (thorough: <= 3) plus chains, trees, diamonds (with shortcut, with paths of different length), cycles through / beside / away from the root, disconnected parts, x every root choice (none, one, two) x three families of edit histories (class additions, comment additions that conflict on a path, inner classes contracted in the diffs and extended in the answer) x stray files. Every directory is created on disk (files written from the specification's own line records) and run through the real VersionGraph::resolve / get / apply_diffs / depth; random larger version trees with real diffs, second parents, unreachable versions and stale diffs are validated by TLC against the listing read_dir actually returned. In one history family the edges that leave version a give a class that exists without a named name its name (the class must keep its members).",
     "level_note": "Trusted: TLC, projection of mapping / diff trees, line joiner, src/version_graph.rs compiled into the harness via #[path] with Intermediary / Named / MinecraftVersion supplied by the harness. read_dir order cannot be forced: it is recorded and the specification is evaluated on the recorded listing and on its reverse. Directories in which one name is claimed by two versions (a and a~b) are listing dependent by construction and only required not to panic.",
     "assumptions": ["TLC/SANY/CommunityModules", "harness projection (proj_quill.rs)", "tmpfs under /dev/shm for scratch directories"],
 }
